@@ -21,6 +21,8 @@ type World struct {
 	conns  []*Conn
 	// DialFail makes free-mode dials fail this many times.
 	DialFail int
+	// AutoBroker lets the broker react to every client write at once, also in gated mode.
+	AutoBroker bool
 	// CloseErr makes Conn.Close return an error (after closing).
 	CloseErr bool
 }
@@ -177,10 +179,29 @@ func (c *Conn) IsClosed() bool {
 	return c.closed
 }
 
+// Brief is the compact form of a packet used in events.
+func Brief(p *codec.Packet) map[string]any {
+	m := map[string]any{"t": p.T, "id": p.ID, "qos": p.QoS, "dup": p.Dup, "retain": p.Retain, "tag": p.Tag, "len": p.Len,
+		"topic": p.Topic, "filt": p.Filt, "codes": p.Codes, "sp": p.SP, "rc": p.RC, "bad": p.Bad, "clean": false}
+	if p.Filt == nil {
+		m["filt"] = []string{}
+	}
+	if p.Codes == nil {
+		m["codes"] = []int{}
+	}
+	if len(p.Topic) > 64 {
+		m["topic"] = p.Topic[:64]
+	}
+	if p.Conn != nil {
+		m["clean"] = p.Conn.Clean
+	}
+	return m
+}
+
 func pkList(ps []*codec.Packet) []any {
 	r := make([]any, 0, len(ps))
 	for _, p := range ps {
-		r = append(r, p)
+		r = append(r, Brief(p))
 	}
 	return r
 }
@@ -232,9 +253,11 @@ func (c *Conn) Write(b []byte) (int, error) {
 	got := c.c2b.Feed(b[:n])
 	tail := c.c2b.Tail()
 	overlap := c.overlap
+	ptail := partial(c.c2b.TailBytes())
 	c.mu.Unlock()
-	c.w.Rec.Emit(Ev{"e": "cw", "c": c.id, "p": me, "n": n, "of": len(b), "err": errs, "pk": pkList(got), "tail": tail, "overlap": overlap})
-	if o.Kind == "free" && err == nil {
+	c.w.Rec.Emit(Ev{"e": "cw", "c": c.id, "p": me, "n": n, "of": len(b), "err": errs, "pk": pkList(got), "tail": tail,
+		"ptype": ptail[0], "pid": ptail[1], "overlap": overlap})
+	if (o.Kind == "free" || c.w.AutoBroker) && err == nil {
 		c.w.Broker.Pump(c)
 	}
 	return n, err
@@ -362,4 +385,55 @@ func (c *Conn) RawAt(i int) []byte {
 	c.mu.Lock()
 	defer c.mu.Unlock()
 	return c.c2b.Raw[i]
+}
+
+// Readable tells why a Read would return although no bytes wait: "closed", "eof", "err", or "".
+func (c *Conn) Readable() string {
+	c.mu.Lock()
+	defer c.mu.Unlock()
+	switch {
+	case c.closed:
+		return "closed"
+	case c.dead:
+		return "err"
+	case c.eof:
+		return "eof"
+	}
+	return ""
+}
+
+// partial identifies an incomplete packet at the end of the stream as far as its bytes allow:
+// type name and packet identifier (0 = unknown).
+func partial(b []byte) [2]any {
+	if len(b) == 0 {
+		return [2]any{"", 0}
+	}
+	t := [16]string{"RESERVED0", "CONNECT", "CONNACK", "PUBLISH", "PUBACK", "PUBREC", "PUBREL", "PUBCOMP",
+		"SUBSCRIBE", "SUBACK", "UNSUBSCRIBE", "UNSUBACK", "PINGREQ", "PINGRESP", "DISCONNECT", "RESERVED15"}[b[0]>>4]
+	hdr, _, err := codec.Frame(append(append([]byte(nil), b...), make([]byte, 5)...))
+	if err != nil || len(b) < hdr+2 {
+		return [2]any{t, 0}
+	}
+	body := b[hdr:]
+	switch t {
+	case "PUBLISH":
+		if b[0]&6 == 0 {
+			return [2]any{t, 0}
+		}
+		n := int(body[0])<<8 | int(body[1])
+		if len(body) >= 2+n+2 {
+			return [2]any{t, int(body[2+n])<<8 | int(body[2+n+1])}
+		}
+		return [2]any{t, 0}
+	case "CONNECT", "PINGREQ", "DISCONNECT":
+		return [2]any{t, 0}
+	}
+	return [2]any{t, int(body[0])<<8 | int(body[1])}
+}
+
+// Established reports whether the broker consumed a CONNECT on this connection.
+func (c *Conn) Established() bool {
+	c.mu.Lock()
+	defer c.mu.Unlock()
+	return c.consumed > 0
 }
